@@ -191,7 +191,9 @@ impl<'a> CaseRunner<'a> {
             }
             _ => false,
           };
-          if order_dependent {
+          if order_dependent || r.order_sensitive {
+            // also: some task read a resource before another task wrote it in this from-scratch build - then pie, which
+            // validated the reader's dependency before the writer re-ran, legitimately differs from a from-scratch run
             self.rep.count("sessions_with_read_before_require_of_generator");
           } else if rec.roots.len() > k && match v {
             crate::refm::RefViol::HiddenRead { res, reader, writer } | crate::refm::RefViol::HiddenWrite { res, reader, writer } =>
